@@ -935,10 +935,24 @@ pub fn run_case(tape: &mut Tape, _tier: Tier, _p: &CaseParams) -> CaseOutcome {
         _ => "emitted-output-differs",
       };
       let state = if st.cache_hits > 0 { "warm" } else { "cold-or-stale" };
+      // the package edited in this step was cached with diagnostics: such an
+      // entry holds the source hashes of the modules up to the first
+      // diagnostic only (listed finding)
+      let edited_pkg = st.label.split(':').next().unwrap_or("").to_string();
+      let prev_had_diag = i > 0
+        && edited_pkg.starts_with('@')
+        && steps[i - 1].no_cache.iter().any(|(k, v)| {
+          matches!(v, FcSlot::Error(_)) && k.contains(&format!("/{}/", edited_pkg))
+        });
       out.violation(
         "C12",
         "cache-transparent",
-        format!("cache-changes-output:{}:{}", class, state),
+        format!(
+          "cache-changes-output:{}:{}{}",
+          class,
+          state,
+          if prev_had_diag { ":edited-package-was-cached-with-diagnostics" } else { "" }
+        ),
         format!(
           "step {} ({}): with the cache ({}) {} has {} but without it {}",
           i,
